@@ -21,6 +21,7 @@ func main() {
 	replay := flag.String("replay", "", "report file to replay")
 	list := flag.Bool("list", false, "list properties")
 	dump := flag.Bool("dump", false, "print every obligation")
+	out := flag.String("out", "", "directory receiving evidence/ and reports/ (default: the verification directory)")
 	flag.Parse()
 
 	if *list {
@@ -67,16 +68,19 @@ func main() {
 		fmt.Fprintln(os.Stderr, "known_findings.txt:", err)
 		os.Exit(3)
 	}
-	code := run(pr, L, kf, *repo, *verif, *tier, onlyKey, *dump)
+	if *out == "" {
+		*out = *verif
+	}
+	code := run(pr, L, kf, *repo, *verif, *out, *tier, onlyKey, *dump)
 	os.Exit(code)
 }
 
-func run(pr *rules.Property, L *core.Ledger, kf *core.KnownFindings, repo, verif, tier, onlyKey string, dump bool) (code int) {
+func run(pr *rules.Property, L *core.Ledger, kf *core.KnownFindings, repo, verif, out, tier, onlyKey string, dump bool) (code int) {
 	p, err := core.Load(repo, core.ModPath, 23)
 	if err != nil {
 		// a tree that does not load/type-check cannot be decided: fail, loudly
 		L.Unknown("load", repo, "repository loads and type-checks", "-", err.Error())
-		return L.Finish(verif, repo, kf, onlyKey, pr.Explanation)
+		return L.Finish(out, repo, kf, onlyKey, pr.Explanation)
 	}
 	L.Note("loaded %d packages of %s from %s (working tree), %d functions in SSA form; files outside the build: %v",
 		len(p.Pkgs), core.ModPath, repo, len(p.AllFns), p.Skipped)
@@ -95,5 +99,5 @@ func run(pr *rules.Property, L *core.Ledger, kf *core.KnownFindings, repo, verif
 			fmt.Printf("%-10s %s  @%s\n    %s\n", o.Status, o.Key(), o.Pos, o.Detail)
 		}
 	}
-	return L.Finish(verif, repo, kf, onlyKey, pr.Explanation)
+	return L.Finish(out, repo, kf, onlyKey, pr.Explanation)
 }
